@@ -22,7 +22,7 @@ import genhist
 WALK_SPELLING_SIG = "walk.info/files/dirs(path) report paths under the caller's spelling of the start path"
 C10_CACHED_PAGE_HIT = "cache_directory: scandir(path, page=...) answered from the cache ignores the page"
 C10_CACHED_PAGE_MISS = "cache_directory: scandir(path, page=...) on a cache miss stores the page as the whole directory"
-PENDING_FINDINGS = [WALK_SPELLING_SIG, C10_CACHED_PAGE_HIT, C10_CACHED_PAGE_MISS]
+PENDING_FINDINGS = []      # all three were genuine defects, repaired in /repo (b3334b1, 2e1ab1a): violations again if they return
 
 _MT = re.compile(r"@(N|Si-?\d+)")
 _MTI = re.compile(r"\|(N|Si-?\d+)\)")
